@@ -5,6 +5,7 @@ import (
 	"crypto/sha256"
 	"encoding/binary"
 	"encoding/hex"
+	"os"
 	"sort"
 	"time"
 
@@ -31,6 +32,17 @@ type Prop struct {
 	Real       []string
 	Stub       []string
 	Race       bool
+}
+
+// deep is set in the thorough tier: scenarios draw larger deployments and longer histories.
+var deep = os.Getenv("VERIF_DEPTH") == "deep"
+
+// depth returns quick in the quick tier and thorough in the thorough tier.
+func depth(quick, thorough int) int {
+	if deep {
+		return thorough
+	}
+	return quick
 }
 
 var registry = map[string]*Prop{}
